@@ -203,7 +203,10 @@ class World(object):
         attached = []
         try:
             for k, fs in by_member.items():
-                fl = S.mk_filters(_dedup(fs))
+                fl = []
+                for f in S.mk_filters(fs):
+                    if f not in fl:
+                        fl.append(f)
                 self.stores[k].source.filters.add(list(fl))
                 attached.append((k, fl))
             if pr.get("route") == "env":
